@@ -155,7 +155,7 @@ func (r *Ref) Other(q Req, rng *rand.Rand) (Req, bool) {
 func messages(p []byte) (out [][]byte, ok bool) {
 	for len(p) > 0 {
 		l, n := binary.Uvarint(p)
-		if n <= 0 || int(l) > len(p)-n {
+		if n <= 0 || l > uint64(len(p)-n) {
 			return nil, false
 		}
 		out = append(out, p[:n+int(l)])
